@@ -434,8 +434,13 @@ PLANS = {
                             "1e-9) is a one-line float comparison in the harness, because TLC has no reals. Level 'other': "
                             "spec-generated exact vectors replayed into the implementation.",
                 nontrivial=lambda e: ((e["ev"], json.dumps(e.get("args"), sort_keys=True)) if e["ev"] == "Measure" else None)),
-    "C03": dict(level="fault_enumeration", families=[("remove", 8, 16), ("insert", 8, 16), ("flips", 8, 16), ("repair", 8, 16)],
-                rule="every mutating call that returned Err or Skipped in the insert/remove/flip/repair histories "
+    "C03": dict(level="fault_enumeration", families=[("failpoints", 14, 16), ("remove", 6, 16), ("insert", 6, 16), ("flips", 6, 16), ("repair", 6, 16)],
+                rule="(i) FAILPOINTS: for insert / insert_with_statistics (interior, exterior), remove_vertex, Edit-API flips (k=1,2,3) "
+                     "and both repair entry points on bases in D=2..4 under three policy settings, a discovery run lists the "
+                     "cfg(delaunay_verif) failpoint sites the call passes (insert attempt failing non-retryably / retryably "
+                     "after the Tds was written, insert post-steps, three steps of vertex removal, three steps of flip "
+                     "application, the repair postcondition) and each site is then forced at its 1st..3rd hit; a twin cloned "
+                     "before runs the same unforced continuation (Compare). (ii) every mutating call that returned Err or Skipped in the insert/remove/flip/repair histories "
                      "(natural failures: duplicates, reused uuids, degenerate points, non-flippable / boundary / "
                      "out-of-range / stale / foreign handles, repair failures); distinct non-trivial = distinct "
                      "failed mutating events (kind, args, history tag)",
